@@ -33,7 +33,8 @@ Consume ==
   /\ l' = l + 1
   /\ LET j == Rec[l] IN
      IF j.step = "reset" THEN Reset
-     ELSE /\ Next
+     ELSE IF j.step = "mutate" THEN MutateTo(j.gen)
+     ELSE /\ IF j.step = "loaded" THEN LoadDoneTo(j.mem) ELSE NextBase
           /\ step' = j.step
           /\ j.step = "loaded" =>
                /\ loaded'.store = j.store
